@@ -588,7 +588,7 @@ func (g *C15Gen) newDeploy(kind string) *cand {
 			c.Timestamp = uint64(int64(now) + int64(r.Range(-200, 900)))
 			cd.args = [][]byte{u64b(c.Timestamp)}
 		case kMultisig:
-			c.MaxVotes = byte(r.Range(1, 4))
+			c.MaxVotes = byte(r.Range(1, 3))
 			c.MinVotes = byte(r.Range(1, int(c.MaxVotes)))
 			cd.args = [][]byte{{c.MaxVotes}, {c.MinVotes}}
 		case kOV:
@@ -794,10 +794,10 @@ func (g *C15Gen) candidates(c *C15Contract) []*cand {
 				add("Call", "add", owner, nil, g.someAddr().Bytes())
 			}
 		}
-		if bal.Cmp(g.dust()) <= 0 && r.Intn(3) == 0 || r.Intn(10) == 0 {
+		if bal.Cmp(g.dust()) <= 0 && g.Step-c.Born > 45 && r.Intn(3) == 0 || r.Intn(14) == 0 {
 			add("Terminate", "terminate", owner, nil, g.someAddr().Bytes())
 		}
-		if r.Intn(10) == 0 {
+		if r.Intn(12) == 0 {
 			add("Terminate", "terminate", g.other(c.Owner), nil, g.someAddr().Bytes())
 		}
 	case kOV:
@@ -1355,7 +1355,7 @@ func (g *C15Gen) NextBatch() (acts []*C15Action, multis []*C15Multi, plain []*ty
 		}
 	}
 	// 3. deployments: every enabled type early, then keep a few instances of each alive
-	n := r.Range(1, 3)
+	n := r.Range(2, 4)
 	for i := 0; i < n; i++ {
 		var kind string
 		fewest := 1 << 30
@@ -1370,7 +1370,7 @@ func (g *C15Gen) NextBatch() (acts []*C15Action, multis []*C15Multi, plain []*ty
 				fewest, kind = cnt, k
 			}
 		}
-		limit := 3
+		limit := 2
 		if fewest < limit && (fewest == 0 || r.Intn(3) == 0) || r.Intn(14) == 0 {
 			if r.Intn(5) == 0 {
 				kind = g.Kinds[r.Intn(len(g.Kinds))]
@@ -1398,6 +1398,15 @@ func (g *C15Gen) NextBatch() (acts []*C15Action, multis []*C15Multi, plain []*ty
 			continue
 		}
 		c := live[r.Intn(len(live))]
+		if c.Kind != kMultisig && r.Intn(4) == 0 {
+			// multi-step protocols need more turns than one-shot contracts
+			for _, m := range live {
+				if m.Kind == kMultisig {
+					c = m
+					break
+				}
+			}
+		}
 		cds := g.candidates(c)
 		if len(cds) == 0 {
 			continue
